@@ -290,6 +290,11 @@ def run(ctx):
     n_tie += c01v_stmt.part_vstmt(ctx)  # ... and statement lowering (vstmt_compile_correct)
     from vlib import c01l_stmt
     n_tie += c01l_stmt.part_lstmt(ctx)  # legacy statement lowering (lstmt_compile_correct) + legacy_venom_agree
+    try:
+        from vlib import c01_exprx
+        n_tie += c01_exprx.part_expr_x(ctx)  # larger expression fragment, both front ends (expr_x_ / vexpr_x_compile_correct)
+    except Exception as ex:  # noqa  (fail closed: an exception in the additional part is a violation, the other parts still run)
+        ctx.violation("gate", "the larger-fragment expression part (c01_exprx) raised", {"exception": f"{type(ex).__name__}: {ex}"[:600]})
     cfgs = configs(ctx.tier)
     n = 24 if ctx.tier == "quick" else 240
     items, stats = differential(ctx, n, cfgs)
@@ -324,3 +329,5 @@ def prebuild(ctx):
     c01v_stmt.prebuild(ctx)
     from vlib import c01l_stmt
     c01l_stmt.prebuild(ctx)
+    from vlib import c01_exprx
+    c01_exprx.prebuild(ctx)
